@@ -1,0 +1,18 @@
+//go:build verif
+// +build verif
+
+package appdb
+
+import (
+	db "github.com/tendermint/tm-db"
+)
+
+// VerifWrapDB replaces the underlying DB with wrap(db), e.g. to count or abort writes.
+func (appDB *AppDB) VerifWrapDB(wrap func(db.DB) db.DB) {
+	appDB.db = wrap(appDB.db)
+}
+
+// VerifDB returns the underlying DB.
+func (appDB *AppDB) VerifDB() db.DB {
+	return appDB.db
+}
